@@ -872,14 +872,29 @@ class RespServer(object):
 
     def _handle(self, sock, addr):
         self.handlers += 1
-        f = sock.makefile('rb')
+        try:
+            import socket as _s
+            sock.setsockopt(_s.IPPROTO_TCP, _s.TCP_NODELAY, 1)     # replies to a pipeline go out one by one
+        except OSError:
+            pass
+        f = _QuickAckReader(sock)
         multi = None
         proto = [2]
 
         def send(v):
             sock.sendall(self._enc(v, proto[0]))
+        import socket as _socket
+
+        def quickack():
+            # the client under test does not set TCP_NODELAY; without immediate ACKs a
+            # command sent in two segments stalls ~40 ms on loopback (Nagle + delayed ACK)
+            try:
+                sock.setsockopt(_socket.IPPROTO_TCP, _socket.TCP_QUICKACK, 1)
+            except (OSError, AttributeError):
+                pass
         try:
             while True:
+                quickack()
                 args = self._read_command(f)
                 if args is None:
                     return
@@ -993,6 +1008,46 @@ class RespServer(object):
         except _ResponseError as e:
             return _Error(str(e).encode())
         return _Error(b"ERR unknown command '" + args[0] + b"'")
+
+
+class _QuickAckReader(object):
+    """buffered reader that asks for an immediate ACK after every recv: the client
+    under test does not set TCP_NODELAY, and a command it sends in two segments
+    would otherwise stall ~40 ms on loopback (Nagle waiting for a delayed ACK)"""
+
+    def __init__(self, sock):
+        self.sock = sock
+        self.buf = b''
+
+    def _fill(self):
+        import socket as _socket
+        data = self.sock.recv(65536)
+        try:
+            self.sock.setsockopt(_socket.IPPROTO_TCP, _socket.TCP_QUICKACK, 1)
+        except (OSError, AttributeError):
+            pass
+        if not data:
+            return False
+        self.buf += data
+        return True
+
+    def readline(self):
+        while b'\n' not in self.buf:
+            if not self._fill():
+                return b''
+        i = self.buf.index(b'\n') + 1
+        line, self.buf = self.buf[:i], self.buf[i:]
+        return line
+
+    def read(self, n):
+        while len(self.buf) < n:
+            if not self._fill():
+                break
+        data, self.buf = self.buf[:n], self.buf[n:]
+        return data
+
+    def close(self):
+        pass
 
 
 class _Status(object):
